@@ -342,6 +342,20 @@ orc_x86_cpuid_handle_standard_flags (void)
   orc_uint32 eax, ebx, ecx, edx;
 
   get_cpuid (0x00000001, &eax, &ebx, &ecx, &edx);
+#ifdef ORC_VERIF_HOOKS
+  /* ORC_VERIF_CPUID=<leaf1.ecx>,<leaf1.edx>,<leaf7.ebx>,<xcr0> (hex) replaces
+   * the feature words the detection below looks at */
+  orc_uint32 verif_w[4] = { 0, 0, 0, 0 };
+  int verif_over = 0;
+  {
+    const char *e = getenv ("ORC_VERIF_CPUID");
+    if (e && sscanf (e, "%x,%x,%x,%x", &verif_w[0], &verif_w[1], &verif_w[2], &verif_w[3]) == 4) {
+      verif_over = 1;
+      ecx = verif_w[0];
+      edx = verif_w[1];
+    }
+  }
+#endif
 
   if (edx & (1<<23)) {
     orc_x86_mmx_flags |= ORC_TARGET_MMX_MMX;
@@ -373,6 +387,10 @@ orc_x86_cpuid_handle_standard_flags (void)
   const orc_bool avx_instructions_supported = (ecx & (1 << 28)) != 0;
 
   get_cpuid (0x00000007, &eax, &ebx, &ecx, &edx);
+#ifdef ORC_VERIF_HOOKS
+  if (verif_over) ebx = verif_w[2];
+  const orc_bool verif_osxsave = osxsave_enabled;
+#endif
 
   const orc_bool avx2_instructions_supported = (ebx & (1 << 5)) != 0;
 
@@ -380,6 +398,9 @@ orc_x86_cpuid_handle_standard_flags (void)
   if (osxsave_enabled) {
     osxsave_enabled = check_xcr0_ymm();
   }
+#ifdef ORC_VERIF_HOOKS
+  if (verif_over && verif_osxsave) osxsave_enabled = (verif_w[3] & 6) == 6;
+#endif
 
   if (osxsave_enabled) {
     if (avx_instructions_supported) {
